@@ -58,14 +58,15 @@ class Report:
         s.findings.append(Finding(s.rule, s.stable_fn(fn), desc, msg, loc, witness))
 
     def stable_fn(s, fn):
-        """closure ordinals ({closure#3}) change when an unrelated closure is added before it:
-        name closures by their enclosing function and what they do"""
-        if "{closure#" not in fn or s.ctx is None:
+        """closures are named after their enclosing function only: ordinals ({closure#3}) change
+        when an unrelated closure is added before them, and a description by content changes when
+        a helper is extracted from or inlined into the closure"""
+        if "{closure#" not in fn:
             return fn
-        import shared
-        b = s.ctx.prog.bodies.get(fn)
+        b = s.ctx.prog.bodies.get(fn) if s.ctx is not None else None
         encl = b.encl if b is not None and b.encl else fn.split("::{closure#")[0]
-        return "%s::{%s}" % (encl, shared.closure_desc(s.ctx, fn))
+        encl = encl.split("::{closure#")[0]
+        return "%s::{closure}" % encl
 
     def note(s, text):
         s.notes.append(text)
@@ -226,6 +227,7 @@ def run_property(pid, tier, rules, seed=0, record_floors=False, replay_key=None,
                 "exhaustive": True,
                 "facts": {"variant": ctx.variant, "target": ctx.target, "bodies": len(ctx.prog.bodies),
                           "call_sites": ctx.ncalls(), "facts_dir": os.path.basename(ctx.dir),
+                          "inlined_new_functions": getattr(ctx.prog, "inlined", [])[:40],
                           "renamed_functions_matched_to_recorded_names": [{"recorded": a, "found_as": b_, "callee_similarity": c} for a, b_, c in getattr(ctx.prog, "aliases", [])]},
                 "rules": [{"id": r.rule, "text": r.text, "evaluations": r.evaluations,
                            "distinct_nontrivial": len(r.instances), "findings": len(r.findings),
